@@ -1,5 +1,6 @@
 """C16 - doc comments keep their text, tags and links."""
 import re
+import decisions
 
 import guards
 import rule_scopes
@@ -342,3 +343,5 @@ def run(ctx):
     ctx.run_rule('C16.6', 'T5', 'return-list shapes have distinct tag checks', r_return_shapes, prog)
     ctx.run_rule('C16.8', 'T13', 'conditions under which the doc comment lexer consumes, returns and switches modes (precondition ledger)', r_lexer_preconditions, prog)
     ctx.run_rule('C16.9', 'T13', 'conditions under which a parsed comment / file is handed back or dropped (precondition ledger of the parser entry points)', r_parser_entry, prog)
+    ctx.run_rule('C16.10', 'T2', 'a parsed comment is handed back exactly when parsing succeeded without errors (warnings do not count)', decisions.r_parser_entries, prog, ('comments',))
+    ctx.run_rule('C16.11', 'T2', 'block-tag mode is chosen by the leading "@" alone', decisions.r_block_tag_mode, prog)
